@@ -64,6 +64,12 @@ TABLE = {
          "        nrow = max(map(util.length, self.values()), default=0)\n        for key, value in self.items():\n            if (isinstance(value, DataFrameColumn) and\n                value.nrow == nrow): continue\n            converted = DataFrameColumn(value, nrow=nrow)\n            super().__setitem__(key, converted)", S, None),
     ],
     "C02": [
+        ("unique-sorted-fast-path-by-comparison-silent", DF, "        columns = [self[x] for x in colnames]\n        for i, column in enumerate(list(columns)):",
+         "        columns = [self[x] for x in colnames]\n        if len(columns) == 1 and columns[0].is_integer() and not columns[0].is_timedelta() and self.nrow > 1 and bool(np.all(columns[0][:-1] < columns[0][1:])):\n            for colname, column in self.items():\n                yield colname, column.copy()\n            return\n        for i, column in enumerate(list(columns)):", S, None),
+        ("unique-sorted-fast-path-by-diff", DF, "        columns = [self[x] for x in colnames]\n        for i, column in enumerate(list(columns)):",
+         "        columns = [self[x] for x in colnames]\n        if len(columns) == 1 and columns[0].is_integer() and self.nrow > 1 and bool(np.all(np.diff(columns[0]) > 0)):\n            for colname, column in self.items():\n                yield colname, column.copy()\n            return\n        for i, column in enumerate(list(columns)):", V, "ORD-diff"),
+        ("unique-sorted-fast-path-by-diff-floats-silent", DF, "        columns = [self[x] for x in colnames]\n        for i, column in enumerate(list(columns)):",
+         "        columns = [self[x] for x in colnames]\n        if len(columns) == 1 and columns[0].is_float() and self.nrow > 1 and bool(np.all(np.diff(columns[0]) > 0)):\n            for colname, column in self.items():\n                yield colname, column.copy()\n            return\n        for i, column in enumerate(list(columns)):", S, None),
         ("drop_na-and", DF, "            drop = drop | self[colname].is_na()", "            drop = drop & self[colname].is_na()", V, "SIB-2"),
         ("head-no-clamp", DF, "        n = min(self.nrow, n)\n        return self.slice(np.arange(n))", "        return self.slice(np.arange(n))", V, "SIB-3"),
         ("sample-unsorted", DF, "        return self.slice(np.sort(rows))", "        return self.slice(rows)", V, "SIB-3"),
@@ -155,6 +161,11 @@ TABLE = {
         ("select-head", DF, "        for colname in colnames:\n            yield colname, self[colname].copy()", "        for colname in colnames:\n            yield colname, self[colname][:10].copy()", V, "NAME"),
     ],
     "C10": [
+        ("replace_na-nan_to_num-keeps-inf-silent", VE, "        vector = self.copy()\n        vector[vector.is_na()] = value\n        return vector",
+         "        if self.is_float() and isinstance(value, float):\n            return np.nan_to_num(self, copy=True, nan=value, posinf=np.inf, neginf=-np.inf).view(self.__class__)\n        vector = self.copy()\n        vector[vector.is_na()] = value\n        return vector", S, None),
+        ("replace_na-nan_to_num", VE, "        vector = self.copy()\n        vector[vector.is_na()] = value\n        return vector",
+         "        if self.is_float() and isinstance(value, float):\n            return np.nan_to_num(self, copy=True, nan=value).view(self.__class__)\n        vector = self.copy()\n        vector[vector.is_na()] = value\n        return vector", V, "LOSSY-call"),
+        ("unique_types-guarded-fast-path-silent", UT, "def unique_types(seq):\n", "def unique_types(seq):\n    if not any(isinstance(x, float) for x in seq):\n        return set(x.__class__ for x in seq if x is not None)\n", S, None),
         ("integer-before-timedelta", VE, "        if self.is_timedelta():\n            return self.dtype\n        if self.is_float():\n            return self.dtype\n        if self.is_integer():\n            return float",
          "        if self.is_integer():\n            return float\n        if self.is_timedelta():\n            return self.dtype\n        if self.is_float():\n            return self.dtype", V, "SIB-9"),
         ("string-na-none", VE, "        if self.is_string() or self._is_string_fixed():\n            return dtypes.string.na_object\n        # Note that using None", "        if self.is_string():\n            return dtypes.string.na_object\n        # Note that using None", V, "SIB-9"),
@@ -194,6 +205,12 @@ TABLE = {
         ("alias-other-target", IO, "    return DataFrame.read_npz(path, allow_pickle=allow_pickle)", "    return DataFrame.read_npz(path, allow_pickle=True)", V, "FWD-alias"),
     ],
     "C15": [
+        ("fill-shortcut-all-present-silent", LO, "        for item in self:\n            for key, value in key_value_pairs:\n                if key not in item:\n                    item[key] = value\n            yield item",
+         "        for item in self:\n            if all(k in item for k, v in key_value_pairs):\n                yield item\n                continue\n            for key, value in key_value_pairs:\n                if key not in item:\n                    item[key] = value\n            yield item", S, None),
+        ("fill-shortcut-by-length", LO, "        for item in self:\n            for key, value in key_value_pairs:\n                if key not in item:\n                    item[key] = value\n            yield item",
+         "        for item in self:\n            if len(item) >= len(key_value_pairs):\n                yield item\n                continue\n            for key, value in key_value_pairs:\n                if key not in item:\n                    item[key] = value\n            yield item", V, "KEY-all"),
+        ("wrapper-raises-early-silent", DE, "    def wrapper(self, *args, **kwargs):\n        value = function(self, *args, **kwargs)\n        return self._new(value)",
+         "    def wrapper(self, *args, **kwargs):\n        if self is None:\n            raise TypeError(\"no receiver\")\n        value = function(self, *args, **kwargs)\n        return self._new(value)", S, None),
         ("add-other-first", LO, "        yield from itertools.chain(self, other)\n\n    def __copy__", "        yield from itertools.chain(other, self)\n\n    def __copy__", V, "SEQ"),
         ("mul-one-less", LO, "        for i in range(other):\n            yield from self", "        for i in range(other - 1):\n            yield from self", V, "SEQ"),
         ("fill-overwrites-none", LO, "                if key not in item:\n                    item[key] = value", "                if item.get(key) is None:\n                    item[key] = value", V, "KEY-guard"),
@@ -230,6 +247,8 @@ TABLE = {
         ("keys-from-first-feature", GE, "        for feature in raw.features:\n            for key in feature.properties:\n                data.setdefault(key, [])", "        for feature in raw.features[:1]:\n            for key in feature.properties:\n                data.setdefault(key, [])", V, "FILL"),
     ],
     "C19": [
+        ("sub-vectorised-masked-silent", RE, "    out, na = _prep(string, dtypes.string, dtypes.string.na_object)\n    for i in np.flatnonzero(~na):\n        out[i] = re.sub(",
+         "    out, na = _prep(string, dtypes.string, dtypes.string.na_object)\n    if isinstance(pattern, str) and pattern and re.escape(pattern) == pattern and isinstance(repl, str) and \"\\\\\" not in repl and flags == 0:\n        res = np.strings.replace(string, pattern, repl, count or -1)\n        res[na] = dtypes.string.na_object\n        return Vector.fast(res, str)\n    for i in np.flatnonzero(~na):\n        out[i] = re.sub(", S, None),
         ("proxy-other-function", VE, "        self.isoweekday = wrap(dt.isoweekday)", "        self.isoweekday = wrap(dt.weekday)", V, "FWD-registry"),
         ("vector-branch-other-re", RE, "        out[i] = re.match(pattern, string[i], flags=flags)", "        out[i] = re.search(pattern, string[i], flags=flags)", V, "SIB-17"),
         ("extractor-other-member", DT, "    return _pull_int(x, lambda y: y.isoweekday())", "    return _pull_int(x, lambda y: y.weekday())", V, "SIB-18"),
@@ -238,6 +257,7 @@ TABLE = {
         ("pull_str-raw-early-return", DT, "    if na.all(): return out.as_string()", "    if na.all(): return out", V, "MPT-5"),
     ],
     "C20": [
+        ("dtype-label-memo-by-num", VE, "            return \"string\"\n        return str(self.dtype)", "            return \"string\"\n        if self.dtype.num not in TYPE_CONVERSIONS_LABELS:\n            TYPE_CONVERSIONS_LABELS[self.dtype.num] = str(self.dtype)\n        return TYPE_CONVERSIONS_LABELS[self.dtype.num]\n\nTYPE_CONVERSIONS_LABELS = {}\n\nclass _Unused:\n    pass\n\n    def _unused(self):\n        return None", V, "MEMO-proj"),
         ("geojson-no-truncate_width", GE, "    def to_string(self, *, max_rows=None, max_width=None, truncate_width=None):", "    def to_string(self, *, max_rows=None, max_width=None):", V, "FWD-override"),
         ("null-geometry-unguarded", GE, "            geometry = [f\"<{x['type']}>\" if x is not None else str(x) for x in self.geometry]", "            geometry = [f\"<{x['type']}>\" for x in self.geometry]", V, "GRD-null"),
         ("to_strings-no-empty-guard", VE, "        if self.length == 0:\n            return self.__class__.fast([], str)\n        identity", "        identity", V, "GRD-empty"),
